@@ -85,6 +85,9 @@ HVerdictEarly(o)      == Early(o) /\ ~o.hung =>
 \* about the moment the deadline fires: either attribution, nothing else
 HVerdictBoundary(o)   == Boundary(o) /\ ~o.hung => Reported(o) \in {Natural(o), TimedOut}
 HNoChildLeft(o)       == ~o.alive
+\* nothing is reported as timed out before the interrupt was due (whatever the child did, or whether it got as far as
+\* starting at all): the deadline of the run is the only thing that times a script out
+HNotEarlyTimeout(o)   == ~o.hung /\ o.msg = "timedout" => o.done + Delta >= IntTime(o.D)
 
 \* ---- laws that bound a delay by the slack (load sensitive) ----
 \* interrupted two grace periods before the deadline
@@ -99,6 +102,6 @@ SDoneByDeadline(o)    == ~o.hung => o.done <= o.D + o.s /\ o.rundone <= o.D + o.
 SEarlyUndelayed(o)    == Early(o) /\ ~o.hung => o.done <= o.selfexit + o.s
 
 AllLaws(o) == /\ HFinished(o) /\ HNotEarlyInt(o) /\ HInterruptedIfBlocked(o) /\ HVerdictBlocked(o)
-              /\ HVerdictEarly(o) /\ HVerdictBoundary(o) /\ HNoChildLeft(o)
+              /\ HVerdictEarly(o) /\ HVerdictBoundary(o) /\ HNoChildLeft(o) /\ HNotEarlyTimeout(o)
               /\ SIntOnTime(o) /\ SKillOnTime(o) /\ SKillNotBeforeGrace(o) /\ SDoneByDeadline(o) /\ SEarlyUndelayed(o)
 =============================================================================
